@@ -608,7 +608,9 @@ func tableWiring(c *Ctx, rule string) {
 		}
 		tb, key := p.TermOf(cc.Args[0]), p.TermOf(cc.Args[1])
 		cs := p.CondsAt(in.Block())
-		miss := hasCond(cs, func(k Cond) bool { return !k.Pol && k.Atom.Op == "extract" && k.Atom.Idx == 1 && k.Atom.Args[0].Op == "lookup" })
+		miss := hasCond(cs, func(k Cond) bool {
+			return !k.Pol && k.Atom.Op == "extract" && k.Atom.Idx == 1 && k.Atom.Args[0].Op == "lookup"
+		})
 		if tb.IsField("table", isParam(get, 0)) && key.IsParam(get, 1) && miss {
 			okRT = true
 		}
